@@ -71,14 +71,14 @@ func NewAsyncProducer(t ErrorReporter, config *sarama.Config) *AsyncProducer {
 					mp.errors <- &sarama.ProducerError{Err: err, Msg: msg}
 				} else {
 					msg.Partition = partition
+					var errCheck error
 					if expectation.CheckFunction != nil {
-						err := expectation.CheckFunction(msg)
-						if err != nil {
-							mp.t.Errorf("Check function returned an error: %s", err.Error())
-							mp.errors <- &sarama.ProducerError{Err: err, Msg: msg}
-						}
+						errCheck = expectation.CheckFunction(msg)
 					}
-					if expectation.Result == errProduceSuccess {
+					if errCheck != nil {
+						mp.t.Errorf("Check function returned an error: %s", errCheck.Error())
+						mp.errors <- &sarama.ProducerError{Err: errCheck, Msg: msg}
+					} else if expectation.Result == errProduceSuccess {
 						mp.lastOffset++
 						if config.Producer.Return.Successes {
 							msg.Offset = mp.lastOffset
